@@ -248,6 +248,8 @@ let ops_of_line env line : op list =
   | ["or_else"; h; a; b] -> let d = DMerge (obj env a, obj env b, GLeft) in fresh h; [ODef (n8 h 0, d)]
   | "snapshot" :: h :: s :: f :: cs -> let d = DSnapshot (obj env s, List.map (obj env) cs, parse_fn f) in fresh h; [ODef (n8 h 0, d)]
   | ["snapshot1"; h; s; c] -> let d = DSnapshot (obj env s, [obj env c], NLast) in fresh h; [ODef (n8 h 0, d)]
+  (* a map whose function samples a cell (strictly / through a Lazy forced on the spot): specified as the snapshot *)
+  | [("map_s" | "map_sl"); h; s; f; c] -> let d = DSnapshot (obj env s, [obj env c], parse_fn f) in fresh h; [ODef (n8 h 0, d)]
   | ["gate"; h; s; c] -> let d = DGate (obj env s, obj env c) in fresh h; [ODef (n8 h 0, d)]
   | ["once"; h; s] -> let d = DOnce (obj env s) in fresh h; [ODef (n8 h 0, d)]
   | ["hold"; h; s; v] -> let a = obj env s in fresh h; [OHold (n8 h 0, a, parse_val v)]
